@@ -23,7 +23,7 @@ LEVEL = 'exploration'
 RULE = ('Hypothesis-drawn builder arguments (token methods, origin/absolute targets, versions, status codes admitting a '
         'body, reasons, header maps with trimmed values, bodies empty/binary/CRLF-laden/large, conn_close/no_ua/no_cl), '
         'grammar-generated messages (Content-Length or chunked with arbitrary layout, hex spelling, extensions, trailers), '
-        'update_body inputs x content-encodings, to_chunks (body, chunk size >= 1) and valid chunked streams + tails. '
+        'update_body inputs x content-encodings (single codings, case variants, x-gzip, identity, coding lists), to_chunks (body, chunk size >= 1) and valid chunked streams + tails. '
         'Non-trivial: non-empty body or chunked framing; distinct by hash of the case.')
 ASSUMPTIONS = ['h11 0.16 as the independent parser', 'vf/refs/chunk_ref.py (self-tested)', 'gzip module']
 
